@@ -330,7 +330,9 @@ func ParseBlob(data []byte) ([]*CompiledProfile, error) {
 	pendingName := ""
 	seenFlags := false
 	start := 0
+	streamStart := 0 // a blob of several profiles is a sequence of streams, each starting with "version"
 	for b.pos < len(b.data) {
+		tagPos := b.pos
 		tag := b.data[b.pos]
 		b.pos++
 		switch tag {
@@ -345,6 +347,9 @@ func ParseBlob(data []byte) ([]*CompiledProfile, error) {
 			}
 			pendingName = strings.TrimRight(string(b.data[b.pos:b.pos+n]), "\x00")
 			b.pos += n
+			if pendingName == "version" && len(stack) == 0 {
+				streamStart = tagPos
+			}
 			continue
 		case tagU8:
 			if err := b.need(1); err != nil {
@@ -405,9 +410,9 @@ func ParseBlob(data []byte) ([]*CompiledProfile, error) {
 				return nil, err
 			}
 			if pendingName == "aadfa" && cur != nil {
-				// the table set is 8-byte aligned relative to the start of the stream
+				// the table set is 8-byte aligned relative to the start of its profile's stream
 				off := b.pos
-				pad := (8 - (off % 8)) % 8
+				pad := (8 - ((off - streamStart) % 8)) % 8
 				if pad <= n {
 					dfa, err := parseDFA(b.data[off+pad : off+n])
 					if err != nil {
